@@ -522,3 +522,34 @@ Proof. split; reflexivity. Qed.
 Theorem recover_scopes_match_source : scopes_eqb gen_recover_scopes recover_scopes_model = true.
 Proof. vm_compute. reflexivity. Qed.
 Print Assumptions recover_scopes_match_source.
+
+(* ---- the two span models agree, and the end-to-end statement ---------------------------------- *)
+
+(* The column-level interpreter over the REGENERATED onSpan and the id-level model of IngestRobust.v (over which the
+   first session's theorems are stated) compute the same answer for every event stream, a span with fewer values than
+   keys being a decoder-side panic at the id level. *)
+Theorem column_model_refines_id_model : forall evs,
+  col_status gen_on_span_cols gen_spans_fields gen_attrs_fields (batch0 gen_spans_fields gen_attrs_fields) evs
+  = cls_of_parse (fst (do_parse ctx_traces world0 false (parse_spans span_st0 (map abs_event evs)))).
+Proof.
+  intros evs. apply (col_refines_id gen_on_span_cols gen_spans_fields gen_attrs_fields); [vm_compute; reflexivity|reflexivity|].
+  split; [reflexivity|exact span_st0_ok].
+Qed.
+Print Assumptions column_model_refines_id_model.
+
+(* End to end for the span routes, all pieces regenerated or proved equal to the regenerated ones: for EVERY stream of
+   decoder events (any id widths, keys, values, sizes, flushes, decoder panic, typed/untyped error) the system
+   parser goroutine || channel || handler || drain goroutine ends with everybody finished, the handler's answer has
+   the class the column-level interpreter computes (which harness pipefuzz compares with the real code), the insert
+   services keep their columns, and every batch pushed on the way is rectangular. *)
+Theorem span_requests_end_to_end : forall evs,
+  exists r w', serve tame_model spans_prog consumer_model ctx_traces world0 (spans_dres span_st0 (map abs_event evs)) = (SAllDone r, w')
+    /\ cls_of_parse r = col_status gen_on_span_cols gen_spans_fields gen_attrs_fields (batch0 gen_spans_fields gen_attrs_fields) evs
+    /\ world_ok w' = true
+    /\ Forall (fun b => batch_rect b = true)
+              (sent_batches gen_on_span_cols gen_spans_fields gen_attrs_fields (batch0 gen_spans_fields gen_attrs_fields) evs).
+Proof.
+  apply (span_requests_end_to_end_gen gen_on_span_cols gen_spans_fields gen_attrs_fields gen_spans_consumed gen_attrs_consumed);
+    vm_compute; reflexivity.
+Qed.
+Print Assumptions span_requests_end_to_end.
